@@ -50,6 +50,8 @@ def run(rep: vlib.Reporter, tier: str, seed: int) -> None:
     specs, gstats = gen_specs(rng, 250 if big else 30)
     # siblings on one framework with slow calculations: result collection overlaps later uploads in MULTIPROCESSING
     specs += [daggen.gen_siblings(rng) for _ in range(30 if big else 5)]
+    # a requested column produced by a step whose table another worker still has to read (framework change / join)
+    specs += [daggen.gen_partial_request(rng) for _ in range(40 if big else 8)]
     n_sched = 8 if big else 4
     n_mp = 3 if big else 1
     recs = [one_spec(s, rng, n_sched) for s in specs]
